@@ -59,6 +59,9 @@ def run(ctx):
     # tuples that complete late (cycle-bound) and are mentioned again afterwards, at every container position
     for name, g in late_tuple_graphs(I):
         roundtrip_case(ctx, I, name, [g], None, coq_cases, corpus=True)
+    # Copyable type names of every length (fixed defect 4b8f259: storage refused names longer than 13 bytes)
+    for name, g in long_name_graphs(I):
+        roundtrip_case(ctx, I, name, [g], vocab_v1() if "deep" in name else None, coq_cases, corpus=True)
 
     # ---- 2. findings: deterministic witnesses of the known-defective region
     finding_witnesses(ctx, I)
@@ -87,7 +90,7 @@ def run(ctx):
     # ---- 5. calls over a Broker pair: sharing inside one call, never between two calls
     for i in range(ctx.n(25, 300)):
         call_case(ctx, I, "call%d" % i, random_argsets(I, rng), coq_cases, vi=1 if rng.random() < 0.5 else None)
-    for name, argsets in late_tuple_calls(I) + computed_copy_calls(I):
+    for name, argsets in late_tuple_calls(I) + computed_copy_calls(I) + long_name_calls(I):
         call_case(ctx, I, name, argsets, coq_cases, vi=None, chunk="one")
         call_case(ctx, I, name + "/bytewise", argsets, coq_cases, vi=1, chunk="bytewise")
 
@@ -225,6 +228,35 @@ def computed_copy_calls(I):
     ]
 
 
+def long_name_graphs(I):
+    """registered Copyables whose type names have assorted lengths (below / at / above the longest opentype string, up to
+    and beyond the longest name foolscap registers itself), plain and computed, at every nesting depth"""
+    out = []
+    def plain(cls, v):
+        c = cls(); c.v = v; return c
+    makers = [("basket%d" % len(nm), (lambda nm: (lambda: I.Basket([1, 2], None, nm)))(nm)) for nm in I.BASKET_NAMES]
+    makers += [(cls.__name__, (lambda cls: (lambda: plain(cls, [1])))(cls)) for cls in I.COPYABLES]
+    for nm, mk in makers:
+        out.append(("name-%s/in-list" % nm, [mk()]))
+        out.append(("name-%s/deep" % nm, [[({"k": [mk()]},)], {"a": (mk(), [mk()])}]))
+        out.append(("name-%s/set-and-key" % nm, [{mk()}, frozenset([mk()]), {mk(): 1}]))
+        out.append(("name-%s/attr-of-copy" % nm, [plain(I.CA, mk()), plain(I.CD, [plain(I.CC, (mk(),))])]))
+        out.append(("name-%s/computed-state" % nm, [I.Basket([3], mk(), I.BASKET_NAMES[-1])]))
+    return out
+
+
+def long_name_calls(I):
+    out = []
+    for nm in I.BASKET_NAMES:
+        mk = (lambda nm: (lambda: I.Basket([4, 5], None, nm)))(nm)
+        out.append(("call-name%d" % len(nm), [((mk(), [mk()], {"d": (mk(),)}), {"kw": mk()}), (([[mk()]],), {})]))
+    def plain(cls, v):
+        c = cls(); c.v = v; return c
+    out.append(("call-plain-names", [(tuple(plain(cls, [i]) for i, cls in enumerate(I.COPYABLES)), {"k": [plain(I.CD, plain(I.CC, 1))]}),
+                                     ((plain(I.CD, [plain(I.CD, ())]),), {})]))
+    return out
+
+
 def sig_for_failure(kind, text, hazards):
     """stable signature for a failed round trip"""
     if kind == "send":
@@ -233,6 +265,8 @@ def sig_for_failure(kind, text, hazards):
         if "UnicodeEncodeError" in text:
             return "oracle/send-failed/lone-surrogate-text"
         return "oracle/not-delivered"
+    if "STRING token is too long" in text:
+        return "oracle/receive-failed/long-copyable-name"
     if "copy-attr" in hazards and "AssertionError" in text:
         return "oracle/receive-failed/incomplete-tuple-into-copyable"
     if "dict-key" in hazards and "incomplete object as dictionary key" in text:
@@ -415,7 +449,8 @@ def switch_case(ctx, I, i, switch_cases):
         r = I.receive(data, cuts, tbl0 or None)
         ctx.traces += 1
         if r[0] != "ok":
-            ctx.fail("oracle/vocab-switch/receive-failed", "stream with a vocabulary table replaced mid-stream could not be unserialized "
+            ctx.fail("oracle/receive-failed/long-copyable-name" if "STRING token is too long" in r[1] else
+                     "oracle/vocab-switch/receive-failed", "stream with a vocabulary table replaced mid-stream could not be unserialized "
                      "(%s, chunking %s): %s; new table %r" % (r[0], how, r[1], tbl1),
                      replay=dict(case="switch%d" % i, term=key, table=[x.hex() for x in tbl1], data=data.hex()[:4000], cuts=cuts[:50]))
             return
